@@ -194,6 +194,7 @@ func checkC04(c *core.Ctx, l *core.Ledger) {
 	// FULL-READ
 	checkStreamReaderFullRead(c, l)
 	checkNoRawRead(c, l, "FULL-READ", []string{"protocol/binary"})
+	checkReaderAdapters(c, l, "READER-ADAPTER", []string{"protocol/binary", "protocol", "envelope", "internal/envelope"})
 }
 
 // containerClauses summarises a container reader/writer skeleton: the element
